@@ -103,6 +103,12 @@ func runScript(url string, id int, fail string, t0 int, script []scriptEv) (rec,
 					rc.Publish(m.Reply, []byte(`{"resource":{"rid":"test.y"}}`))
 				case "error":
 					rc.Publish(m.Reply, []byte(`{"error":{"code":"custom.err","message":"m"}}`))
+				case "garbage-bom":
+					rc.Publish(m.Reply, []byte("\xef\xbb\xbf{\"result\":{\"a\":1}}"))
+				case "garbage-latin":
+					rc.Publish(m.Reply, []byte("\xe9t\xe9 is not JSON"))
+				case "garbage-digit":
+					rc.Publish(m.Reply, []byte("12 monkeys"))
 				default:
 					rc.Publish(m.Reply, []byte(`{"neither":true`))
 				}
@@ -199,7 +205,7 @@ func Run(c *core.Ctx) {
 		script []scriptEv
 	}
 	var jobs []job
-	evs := []scriptEv{{"wait", 1}, {"wait", 2}, {"pre", 1}, {"pre", 3}, {"prebad"}, {"resp", "result"}, {"resp", "error"}, {"resp", "resource"}, {"resp", "garbage"}}
+	evs := []scriptEv{{"wait", 1}, {"wait", 2}, {"pre", 1}, {"pre", 3}, {"prebad"}, {"resp", "result"}, {"resp", "error"}, {"resp", "resource"}, {"resp", "garbage"}, {"resp", "garbage-bom"}, {"resp", "garbage-latin"}, {"resp", "garbage-digit"}}
 	// every script of length <= 2, then random ones up to 5
 	for _, a := range evs {
 		jobs = append(jobs, job{"", 2, []scriptEv{a}})
